@@ -158,7 +158,8 @@ func (s *Set) getTemplate(templatePath string, cacheAfterParsing bool) (t *Templ
 
 	t, err = s.getTemplateFromLoader(templatePath, cacheAfterParsing)
 	if err == nil && cacheAfterParsing && !s.developmentMode {
-		s.cache.Put(templatePath, t)
+		// cache under the name the template was loaded from: that is one of the names getTemplateFromCache probes
+		s.cache.Put(t.Name, t)
 	}
 	return t, err
 }
